@@ -32,8 +32,10 @@ class Ref(Expression):
         out += (STATUS, RESULT, POS) << Yield((CALL, func, POS))
 
     def argumentize(self, out, flags):
-        # A rule that is passed as an argument is late-bound, too.
-        if flags.uses_context and not self.is_local and not self.is_super:
+        # A rule that is passed as an argument is late-bound, too. (But the
+        # name may also be a plain value, like an earlier field of a class.)
+        is_rule = self._resolved is not None and not self.is_super
+        if flags.uses_context and is_rule and not self.is_local:
             return Code(f'_ctx.{self.resolved}')
         else:
             return Code(self.resolved)
